@@ -186,6 +186,9 @@ def probe_scf(inp: Dict[str, Any]) -> Dict[str, Any]:
                   "padded": bool(inp.get("pad_to")), "has_anion": any(esh.CHARGE.get(n, 0) < 0 for n in inp["names"])}
         return {"ok": False, "observed": [f"call did not return within {limit:.0f} s"], "expected": "every call returns in bounded time", "predicate": "wall clock", "fields": fields}
     p.join(5)
+    if "exc" in res and inp["converger"][0] == 3:
+        fields = {"kinds": ["raises"], "method": inp["method"], "sp2": False, "converger": 3, "padded": bool(inp.get("pad_to")), "has_anion": any(esh.CHARGE.get(n, 0) < 0 for n in inp["names"])}
+        return {"ok": False, "observed": [f"the KSA solver raises on this batch: {res['exc'].strip().splitlines()[-1][:160]}"], "expected": "a result or an explicit flag", "predicate": "", "fields": fields}
     if "exc" in res:
         raise RuntimeError(res["exc"])
     bad = list(res["bad"])
@@ -220,6 +223,12 @@ def gen_cases(ctx: Ctx):
         if i % 7 == 6:
             c["sp2"] = [True, float(rng.choice([1e-4, 1e-6, 1e-8]))]
         cases.append(c)
+    # the Krylov-subspace (KSA) solver: scf_converger = [3, {T_el, max_rank, err_threshold, k}] (known finding F29: it stops on the energy change alone)
+    ksa = {"T_el": 1500, "max_rank": 3, "k": 4, "err_threshold": 0.0}
+    cases.append({"names": [str(rng.choice(["h2o", "nh3", "ch2o"]))], "method": str(rng.choice(["AM1", "PM3"])), "eps": float(rng.choice([1e-8, 1e-10])), "converger": [3, ksa]})
+    if ctx.thorough:
+        cases.append({"names": ["ch4", "oh-"], "method": "AM1", "eps": 1e-7, "converger": [3, dict(ksa, T_el=300)]})
+        cases.append({"names": ["h2o", "h2o"], "method": "MNDO", "eps": 1e-6, "converger": [3, ksa]})
     for nm, meth in ([("no", "AM1"), ("oh", "PM3"), ("o2", "MNDO")] if ctx.thorough else [("oh", "AM1")]):
         cases.append({"names": [nm], "method": meth, "eps": 1e-8, "converger": [1], "uhf": True})
     # unrestricted reference with the fixed-mixing solver (every solver x spin combination that the package accepts)
